@@ -558,6 +558,19 @@ class Process(object):
                 if e.errno != errno.ESRCH:
                     raise
 
+    def _threads_still_running(self):
+        """A process whose main thread has exited while other threads go on
+        is reported as a zombie, but cannot be waited for (nor is it dead)
+        before its last thread is gone."""
+        if not hasattr(os, 'waitid'):
+            return False
+        try:
+            return os.waitid(os.P_PID, self.pid,
+                             os.WEXITED | os.WNOHANG | os.WNOWAIT) is None
+        except OSError:
+            # not our child, or collected already
+            return False
+
     @property
     def status(self):
         """Return the process status as a constant
@@ -569,6 +582,8 @@ class Process(object):
         """
         try:
             if get_status(self._worker) in (STATUS_ZOMBIE, STATUS_DEAD):
+                if self._threads_still_running():
+                    return RUNNING
                 return DEAD_OR_ZOMBIE
         except NoSuchProcess:
             return UNEXISTING
